@@ -1124,7 +1124,7 @@ def run(ctx):
                         l = l.strip()
                         if l and not l.startswith('#'):
                             t = l.split(' ')
-                            if len(t) > 7 and t[0] == 'H':
+                            if len(t) > 7 and t[0] in ('H', 'G'):
                                 t[5], t[7] = str(maxbuf), str(fixed)
                             corpus_lines.append(' '.join(t))
     n_hist = 700 if quick else 40000
